@@ -5,6 +5,7 @@ from sa.engine.api import *
 from sa.rules._helpers_C import naming_x, strip
 
 UNITS = ["coins.cpp", "txdb.cpp"]
+COMPRESSION_UNITS = ["compressor.cpp"]
 EXPLANATION = ("TYPESTATE (path-sensitive forward flow; join = union of per-path fact sets) over every CCoinsViewCache function of coins.cpp that touches "
                "cacheCoins entries, the dirty counter or the memory-usage counter: (1) each SetDirty(*e) happens only for an entry that is newly "
                "inserted, known not dirty, or whose dirtiness was first subtracted from m_dirty_count, and is followed on every path by exactly one "
@@ -16,7 +17,9 @@ EXPLANATION = ("TYPESTATE (path-sensitive forward flow; join = union of per-path
                "BatchWrite effects (erase / copy / throw / SetFresh / SetDirty) are compared, as truth tables, with the 5-row parent-present x child "
                "FRESH/spent decision table; Flush writes to the parent before clearing and resets the usage counter; the cursor's will_erase flag "
                "agrees with what the caller does afterwards and NextAndMaybeErase erases exactly spent entries / unflags the others when the map is "
-               "kept; CCoinsViewDB::BatchWrite erases spent and writes unspent dirty entries, one of the two for every dirty entry.")
+               "kept; CCoinsViewDB::BatchWrite erases spent and writes unspent dirty entries, one of the two for every dirty entry. Imported from C18: "
+               "ScriptCompression writer/reader agreement incl. the oversize cut-off (a script of length <= MAX_SCRIPT_SIZE read from the database is not "
+               "replaced by OP_RETURN).")
 ASSUMPTIONS = ["std::unordered_map::try_emplace/emplace return (iterator, inserted) and value-initialise a new CCoinsCacheEntry (empty coin, no flags, usage 0)",
                "TrySub(a, b) subtracts b from a; Coin::Clear()/moved-from coins have DynamicMemoryUsage() == 0 afterwards only as far as SpendCoin relies on it"]
 CLAIM = dict(
@@ -716,3 +719,8 @@ def check(ctx):
     fresh_rules(ctx, P)
     flush_sync(ctx, P)
     db_batch_write(ctx, P)
+    # the bottom layer stores coins through the compressed script encoding: a coin read back from the database must be the coin that was
+    # written (otherwise the layered view "loses" a spendable coin).  The writer/reader agreement of ScriptCompression, including the
+    # oversize cut-off at MAX_SCRIPT_SIZE, is C18's rule; it is imported here because its breakage is a C15 failure too.
+    from sa.rules import C18
+    C18.script_compression(ctx, ctx.program(COMPRESSION_UNITS))
